@@ -2,7 +2,8 @@
    inputs  (spack nLIM xIDS gzTAB urlTAB jsTAB MSG LINES nCLEAN)
            (sstream nLIM gzTAB urlTAB jsTAB xBYTES)
              gzTAB  = ((xPLAIN xGZ) ...)            the real gzip filter on the inputs it met
-             urlTAB = ((xIN sok|serr xPATH xRAWQUERY xHOST) ...)      url.Parse
+             urlTAB = ((xIN sok|serr xPATH xRAWQUERY xHOST xESCAPEDPATH) ...)   url.Parse and, of
+                      the parsed URL, EscapedPath
              jsTAB  = ((xJSON serr|xSTATUSQUERY) ...)  first entry: the
                       message's status marshalled; all: Status.UnmarshalJSON
              LINES  = ((xKEY xVALUE) ...)  header lines of the frame the implementation wrote
@@ -43,18 +44,24 @@ Fixpoint pipe_of t (ids : list byte) : option (list hfilter) :=
 Definition by_name_tab t (n : bytes) : option hfilter :=
   if bytes_eqb n (str "gzip-real") then Some (hf_gz t) else None.
 
-Definition url_row := (bytes * option (bytes * bytes * bytes))%type.
+Definition url_row := (bytes * option (bytes * bytes * bytes) * bytes)%type.
 Fixpoint urls_of (l : list val) : option (list url_row) :=
   match l with
   | [] => Some []
-  | VL [VB i; VS k; VB p; VB q; VB h] :: r =>
-      option_map (cons (i, if bytes_eqb k (str "ok") then Some (p, q, h) else None)) (urls_of r)
+  | VL [VB i; VS k; VB p; VB q; VB h; VB e] :: r =>
+      option_map (cons (i, (if bytes_eqb k (str "ok") then Some (p, q, h) else None), e)) (urls_of r)
   | _ => None
   end.
 Fixpoint url_lookup (t : list url_row) (i : bytes) : option (bytes * bytes * bytes) :=
   match t with
   | [] => None
-  | (a, r) :: rest => if bytes_eqb a i then r else url_lookup rest i
+  | (a, r, _) :: rest => if bytes_eqb a i then r else url_lookup rest i
+  end.
+(* URL.EscapedPath of the URL parsed from [i] *)
+Fixpoint url_esc_lookup (t : list url_row) (i : bytes) : bytes :=
+  match t with
+  | [] => []
+  | (a, _, e) :: rest => if bytes_eqb a i then e else url_esc_lookup rest i
   end.
 
 Definition js_row := (bytes * res status)%type.
@@ -123,7 +130,7 @@ Definition run (inp : val) : option val :=
         | Some m, Some t, Some ut, Some jt, Some ls =>
             match pipe_of t ids with
             | Some p =>
-                match http_pack (fun _ => ls) (url_lookup ut) (fun _ => js_first jt) lim p m with
+                match http_pack (fun _ => ls) (url_lookup ut) (url_esc_lookup ut) (fun _ => js_first jt) lim p m with
                 | Ok (frame, size) =>
                     (* Content-Length and Content-Type as the model's Pack sets them *)
                     let mt := b2n (m_mtype m) in
